@@ -98,15 +98,24 @@ class Dataset:
                                % (g["chr"], a, b, g["strand"], g["gene_id"], tid))
         return out
 
-    def write(self, d, bam_name="reads.bam", reads=None, write_ref=True):
+    def write(self, d, bam_name="reads.bam", reads=None, write_ref=True, header=None, fasta_len=None):
+        """header: [(name, length)..] = the @SQ lines of the BAM file when they are not the chromosomes of the data set in
+        their order (a part that lists fewer sequences / another order / another length; every read written must lie on a
+        listed sequence); fasta_len: {name: n} = only the first n bases of that chromosome go into ref.fa (a truncated /
+        older reference: the BAM header then declares a longer sequence than the FASTA holds, as tests/simple_data does)"""
         import pysam
         os.makedirs(d, exist_ok=True)
         names = list(self.chroms)
+        fasta_names = names
+        if header is not None:
+            names = [n for n, _ in header]
         paths = {"ref": os.path.join(d, "ref.fa"), "gtf": os.path.join(d, "ann.gtf"), "bam": os.path.join(d, bam_name)}
         if write_ref:
             with open(paths["ref"], "w") as f:
-                for n in names:
+                for n in fasta_names:
                     s = self.chroms[n]
+                    if fasta_len and n in fasta_len:
+                        s = s[:fasta_len[n]]
                     f.write(">%s\n" % n)
                     for i in range(0, len(s), 60):
                         f.write(s[i:i + 60] + "\n")
@@ -114,6 +123,8 @@ class Dataset:
             with open(paths["gtf"], "w") as f:
                 f.write("\n".join(self.gtf_lines()) + "\n")
         hdr = {"HD": {"VN": "1.6", "SO": "coordinate"}, "SQ": [{"SN": n, "LN": len(self.chroms[n])} for n in names]}
+        if header is not None:
+            hdr["SQ"] = [{"SN": n, "LN": ln} for n, ln in header]
         segs = []
         for r in (self.reads if reads is None else reads):
             a = pysam.AlignedSegment()
